@@ -154,8 +154,10 @@ KEYS = {1: ("ScanNr",), 2: ("ScanNr", "ExpMass"), 3: ("ScanNr", "ret_time", "Exp
         4: ("filename", "ScanNr", "ret_time", "ExpMass")}
 
 
-def build_inputs(case, wd):
-    """files -> OnDiskPsmDatasets; feature 0 is the row id, features 1.. come from the case."""
+def build_inputs(case, wd, hkeys=None):
+    """files -> OnDiskPsmDatasets; feature 0 is the row id, features 1.. come from the case.  hkeys (a dict, optional) receives
+    for every row id the value of the FIRST TWO spectrum-key columns, which is what OnDiskPsmDataset._split hashes: PSMs that
+    share it are kept in one fold even if the other key columns differ (the grouping is coarser than the spectrum)."""
     dsets = []
     nfeat = 1 + len(case["files"][0]["rows"][0]["f"])
     for c, fl in enumerate(case["files"]):
@@ -165,6 +167,9 @@ def build_inputs(case, wd):
         df = mk.build_table(rows, label_enc=case.get("label_enc", "1/-1"), nfeat=nfeat, key_cols=key)
         if "ExpMass" not in key:
             df = df.drop(columns=["ExpMass"])
+        if hkeys is not None:
+            for r, vals in zip(rows, df[list(key)[:2]].astype(str).values.tolist()):
+                hkeys[r["id"]] = "|".join(vals)
         ds = mk.make_dataset(df, wd / ("in%d.%s" % (c, case.get("fmt", "pin"))), key_cols=key,
                              row_group=case.get("row_group"))
         dsets.append(ds)
@@ -183,7 +188,8 @@ def run_brew(case, workdir=None, keep=False):
     raised, rtype = "", ""
     ret = None
     try:
-        dsets = build_inputs(case, wd)
+        hkeys = {}
+        dsets = build_inputs(case, wd, hkeys)
         thr = case.get("thr", [1, 1])
         tthr = case.get("train_thr", [1, 1])
         est = RecEst(kind=case.get("est", "feat"), col=case.get("col", 1), token=tok, offset=int(case.get("est_offset", 0)))
@@ -225,7 +231,9 @@ def run_brew(case, workdir=None, keep=False):
             rtype = type(e).__name__
         finally:
             BM._create_psms = orig_create
-        rows = [{"id": r["id"], "file": c + 1, "spec": r["spec"], "tgt": bool(r["tgt"])}
+        hnum = {}
+        rows = [{"id": r["id"], "file": c + 1, "spec": r["spec"], "tgt": bool(r["tgt"]),
+                 "hgrp": hnum.setdefault((c, hkeys[r["id"]]), len(hnum) + 1)}
                 for c, fl in enumerate(case["files"]) for r in fl["rows"]]
         file_of = {r["id"]: r["file"] for r in rows}
         fits, preds, trainsets = [], [], []
